@@ -2,12 +2,13 @@
 from __future__ import annotations
 
 import copy
+import json
 from fractions import Fraction
 
 import numpy as np
 
 import gen
-from common import PropertyCheck, Skip, load_autoarray, mask_json, mask_from_json, q, qlist, qmat
+from common import Cmp, PropertyCheck, Skip, load_autoarray, mask_json, mask_from_json, q, qlist, qmat
 
 ODD = (1, 3, 5, 7)
 
@@ -27,14 +28,17 @@ def _integral(vals):
 def _typed(vals, shape, form):
     """the same real numbers in the requested container / dtype"""
     fr = [Fraction(v) for v in vals]
-    if form in ("int64", "pyint") and all(v.denominator == 1 for v in fr):
+    if form in ("int64", "pyint") and all(v.denominator == 1 and abs(v) < 2 ** 62 for v in fr):
         a = np.array([int(v) for v in fr], dtype=np.int64)
         a = a.reshape(shape) if shape is not None else a
         return a.tolist() if form == "pyint" else a
     a = np.array([float(v) for v in fr], dtype=float)
     a = a.reshape(shape) if shape is not None else a
     if form == "float32":
-        return a.astype(np.float32)
+        with np.errstate(all="ignore"):
+            b = a.astype(np.float32)
+        # (far decades: float32 cannot hold the numbers — the float64 array is used instead, never a rounded one)
+        return b if np.array_equal(b.astype(float), a) else a
     if form == "pyfloat":
         return a.tolist()
     if form == "tuple":
@@ -45,6 +49,82 @@ def _typed(vals, shape, form):
 IMAGE_FORMS = ["native_float", "native_float", "native_int64", "native_pyint", "slim_int64", "slim_pyint",
                "native_float32", "slim_float", "structure", "native_pyfloat"]
 KERNEL_FORMS = ["nd", "nd", "list", "pyint", "int64", "manual_mask"]
+
+# round 5/6 (R5-C): the same real numbers in other memory layouts / containers / through other constructors.
+# The *_X lists are what the ordinary (non-history) streams draw from; histories keep the short lists above
+# because they edit the live objects in place (a read-only or aliased buffer cannot be edited).
+LAYOUTS = ["fortran", "tview", "strided", "readonly"]
+IMAGE_FORMS_X = IMAGE_FORMS + ["native_fortran", "native_tview", "native_strided", "native_readonly",
+                               "slim_strided", "slim_readonly", "from_structure", "from_structure_native",
+                               "native_float32_fortran", "native_int64_strided"]
+KERNEL_FORMS_X = KERNEL_FORMS + ["fortran", "tview", "strided", "readonly", "float32", "slim_shape", "slim_list_shape",
+                                 "from_kernel", "from_native", "store_native", "copy", "norm_arg"]
+MASK_FORMS_X = ["nd", "nd", "nd", "fortran", "tview", "strided", "readonly", "list", "int", "uint8", "from_mask",
+                "from_mask_geom", "invert"]
+MATRIX_FORMS_X = ["float", "float", "int64", "float32", "fortran", "tview", "strided", "readonly", "int32_fortran"]
+SAME_FORMS_X = ["float", "int64", "pyint", "float32", "fortran", "tview", "strided", "readonly", "native_stored"]
+
+
+def _layout(a, how):
+    """an ndarray equal to `a` (same dtype, same values) in another memory layout"""
+    a = np.asarray(a)
+    if how == "fortran":
+        return np.asfortranarray(a)
+    if how == "tview":          # a transposed VIEW of a C-ordered buffer (neither flag set for 2-D non-square)
+        return np.ascontiguousarray(a.T).T if a.ndim == 2 else a[::-1][::-1]
+    if how == "strided":        # every second element of a larger buffer, junk in between
+        big = np.full(tuple(2 * n + 1 for n in a.shape), 77, dtype=a.dtype)
+        sl = tuple(slice(1, 2 * n + 1, 2) for n in a.shape)
+        big[sl] = a
+        return big[sl]
+    if how == "readonly":
+        b = np.array(a)
+        b.flags.writeable = False
+        return b
+    return np.array(a)
+
+
+CFG_NBO = ("general", "structures", "native_binned_only")
+
+
+def _cfg_get():
+    from autoconf import conf
+    return bool(conf.instance[CFG_NBO[0]][CFG_NBO[1]][CFG_NBO[2]])
+
+
+def _cfg_set(value):
+    from autoconf import conf
+    conf.instance[CFG_NBO[0]][CFG_NBO[1]][CFG_NBO[2]] = bool(value)
+
+
+def _scribble(obj, how):
+    """overwrite IN PLACE the buffer behind an array / autoarray structure the API returned or accepted"""
+    a = getattr(obj, "_array", obj)
+    if not isinstance(a, np.ndarray) or a.size == 0:
+        return 0
+    try:
+        if a.dtype == bool:
+            if how == "plus":
+                np.logical_not(a, out=a)
+            else:
+                a[...] = (how == "nan")
+        elif a.dtype.kind == "f":
+            if how == "nan":
+                a[...] = np.nan
+            elif how == "plus":
+                a += 1.0
+            else:
+                a *= -3.0
+        elif a.dtype.kind in "iu":
+            if how == "plus":
+                a += 1
+            else:
+                a[...] = 7
+        else:
+            return 0
+    except Exception:      # read-only buffers and the like: nothing to scribble on
+        return 0
+    return 1
 
 
 def _farr(vals, shape=None):
@@ -147,12 +227,33 @@ class _Env:
         self.o = {}
         self.sig = {}
         self.st = {}
+        self.seen = []       # every array / structure the API accepted or returned so far (ownership histories)
+        self.tracking = False
 
     def begin(self, st):
         self.st = st
+        if st.get("scribble"):
+            # ownership history (R5-B): overwrite in place everything the API has accepted or returned so far …
+            self.tracking = True
+            for obj in self.seen:
+                _scribble(obj, st["scribble"])
+            self.seen = []
+        if st.get("fresh"):
+            # … and build this step's world from fresh, equal inputs: no live object is carried over
+            self.tracking = True
+            self.o, self.sig = {}, {}
+        if "cfg" in st:
+            _cfg_set(st["cfg"])
+
+    def track(self, *objs):
+        if self.tracking:
+            self.seen.extend(o for o in objs if o is not None)
+
+    def cfg(self):
+        return bool(self.st.get("cfg"))
 
     def how(self, role):
-        if role in self.st.get("new", ()):
+        if self.st.get("fresh") or role in self.st.get("new", ()):
             return "new"
         return self.st.get("derive", {}).get(role, "reuse")
 
@@ -160,10 +261,13 @@ class _Env:
         return bool(self.st.get("swap"))
 
     # ---- inputs
-    def mask(self, m):
+    def mask(self, m, case=None):
         how, old = self.how("mask"), self.o.get("mask")
-        if old is None or how == "new" or tuple(old.shape_native) != tuple(m.shape):
-            obj = self.aa.Mask2D(mask=m, pixel_scales=1.0)
+        case = case or {}
+        gsig = (case.get("mask_form", "nd"), json.dumps(case.get("geom"), sort_keys=True))
+        if old is None or how == "new" or tuple(old.shape_native) != tuple(m.shape) or self.sig.get("mask") != gsig:
+            obj = C03._mask_obj(self.aa, m, case, self.track)
+            self.sig["mask"] = gsig
         else:
             obj = _derived(old, how if how in ("copy", "deepcopy", "with_new_array") else "reuse")
             cur = np.asarray(obj, dtype=bool)
@@ -177,8 +281,11 @@ class _Env:
         shape = (Kj["h"], Kj["w"])
         vals = [float(Fraction(v)) for v in Kj["vals"]]
         how, old = self.how("kernel"), self.o.get("kernel")
-        if old is None or how == "new" or tuple(old.shape_native) != shape or not _holds(old, vals):
-            obj = C03._kernel_obj(self.aa, case)
+        gsig = json.dumps(case.get("geom"), sort_keys=True)
+        if old is None or how == "new" or tuple(old.shape_native) != shape or not _holds(old, vals) \
+                or self.sig.get("kernel") != gsig:
+            obj = C03._kernel_obj(self.aa, case, self.track)
+            self.sig["kernel"] = gsig
         else:
             if "scale" in self.st and how == "arith":
                 obj = old * float(Fraction(self.st["scale"]))
@@ -196,23 +303,34 @@ class _Env:
         ok = old is not None and how != "new" and self.sig.get(role) == sig and _holds(old, fv) \
             and np.array_equal(np.asarray(old.mask, dtype=bool), mb) and (role != "image" or old.mask is mask)
         if not ok:
-            obj = C03._image_obj(self.aa, vals, shape, mask, form, store_native)
+            obj = C03._image_obj(self.aa, vals, shape, mask, form, store_native, self.track)
         else:
             obj = _derived(old, how)
             _edit_to(obj, np.array(fv).reshape(shape), mb)
         self.o[role], self.sig[role] = obj, sig
         return obj
 
-    def array_no_mask(self, vals, shape, form, role="array"):
+    def array_no_mask(self, vals, shape, form, role="array", case=None):
         fv = [float(Fraction(v)) for v in vals]
         how, old = self.how(role), self.o.get(role)
-        ok = old is not None and how != "new" and self.sig.get(role) == (shape, form) and _holds(old, fv)
+        ps, origin = C03._geom(case or {})
+        sig = (shape, form, ps, origin)
+        ok = old is not None and how != "new" and self.sig.get(role) == sig and _holds(old, fv)
         if not ok:
-            obj = self.aa.Array2D.no_mask(values=_typed(vals, shape, form), pixel_scales=1.0)
+            if form in LAYOUTS:
+                data = _layout(_typed(vals, shape, "nd"), form)
+            else:
+                data = _typed(vals, shape, "nd" if form == "native_stored" else form)
+            self.track(data)
+            if form == "native_stored":
+                am = self.aa.Mask2D.all_false(shape_native=shape, pixel_scales=ps, origin=origin)
+                obj = self.aa.Array2D(values=data, mask=am, store_native=True)
+            else:
+                obj = self.aa.Array2D.no_mask(values=data, pixel_scales=ps, origin=origin)
         else:
             obj = _derived(old, how)
             _edit_to(obj, np.array(fv).reshape(shape))
-        self.o[role], self.sig[role] = obj, (shape, form)
+        self.o[role], self.sig[role] = obj, sig
         return obj
 
     def matrix(self, case):
@@ -228,12 +346,21 @@ class _Env:
                 obj[int(i), int(j)] = M[int(i), int(j)]
         else:
             obj = M
-            if mform == "int64" and _integral([v for row in case["matrix"] for v in row]):
+            integral = _integral([v for row in case["matrix"] for v in row]) and (M.size == 0 or np.abs(M).max() < 2 ** 31)
+            if mform == "int64" and integral:
                 obj = M.astype(np.int64)
             elif mform == "float32":
-                obj = M.astype(np.float32)
+                with np.errstate(all="ignore"):
+                    obj = M.astype(np.float32)
+                if not np.array_equal(obj.astype(float), M):
+                    obj = M
             elif mform == "fortran":
                 obj = np.asfortranarray(M)
+            elif mform in LAYOUTS:
+                obj = _layout(M, mform)
+            elif mform == "int32_fortran" and integral:
+                obj = np.asfortranarray(M.astype(np.int32))
+            self.track(obj)
         self.o["matrix"], self.sig["matrix"] = obj, mform
         return obj
 
@@ -251,19 +378,28 @@ class _Env:
         return cv
 
     def simulator(self, case, kernel, bg):
+        so = case.get("sim_opts") or {}
         sig = (tuple(case["kernel"]["vals"]), case["kernel"]["h"], case["kernel"]["w"], bg,
                case.get("exposure", "1"), bool(case.get("subtract_background", True)),
-               bool(case.get("normalize_psf", True)))
+               bool(case.get("normalize_psf", True)), json.dumps(so, sort_keys=True))
         old = self.o.get("sim")
         if old is not None and self.how("sim") != "new" and self.sig.get("sim") == sig \
                 and self.o.get("sim_kernel") is kernel:
             return old
-        sim = self.aa.SimulatorImaging(exposure_time=float(Fraction(case.get("exposure", "1"))),
-                                       background_sky_level=bg, psf=kernel,
-                                       subtract_background_sky=bool(case.get("subtract_background", True)),
-                                       normalize_psf=bool(case.get("normalize_psf", True)),
-                                       add_poisson_noise_to_data=False,
-                                       include_poisson_noise_in_noise_map=False, noise_seed=1)
+        kw = {"exposure_time": float(Fraction(case.get("exposure", "1"))), "psf": kernel,
+              "add_poisson_noise_to_data": False,
+              "include_poisson_noise_in_noise_map": bool(so.get("poisson_in_noise_map", False)),
+              "noise_seed": int(so.get("noise_seed", 1))}
+        # options left at their defaults are NOT passed when the case says so (default vs explicit value)
+        if not (so.get("omit_background") and bg == 0):
+            kw["background_sky_level"] = bg
+        if not (so.get("omit_subtract") and case.get("subtract_background", True)):
+            kw["subtract_background_sky"] = bool(case.get("subtract_background", True))
+        if not (so.get("omit_normalize") and case.get("normalize_psf", True)):
+            kw["normalize_psf"] = bool(case.get("normalize_psf", True))
+        if "noise_if_add_noise_false" in so:
+            kw["noise_if_add_noise_false"] = float(Fraction(so["noise_if_add_noise_false"]))
+        sim = self.aa.SimulatorImaging(**kw)
         self.o["sim"], self.sig["sim"], self.o["sim_kernel"] = sim, sig, kernel
         self.o.pop("ds", None)
         return sim
@@ -462,10 +598,10 @@ class C03(PropertyCheck):
         """sky level lifting the (signed) blurred image above zero for the Poisson draw the simulator always
         performs (and discards); an integer, so adding and subtracting it is exact"""
         if "background" in case:
-            return int(Fraction(case["background"]))
+            return Fraction(case["background"])
         A = sum(abs(Fraction(v)) for v in case["image"])
         K = sum(abs(Fraction(v)) for v in cls._effective_kernel(case)["vals"])
-        return int(A * K) + 1
+        return Fraction(int(A * K) + 1)
 
     def _frame_for(self, rng, kh, kw, lo, hi):
         h = rng.randint(max(lo, kh + 1), max(hi, kh + 2))
@@ -485,7 +621,7 @@ class C03(PropertyCheck):
             h, w = self._frame_for(rng, kh, kw, 5, hi)
             m, mk = self._mask_with_margins(rng, h, w, kh // 2, kw // 2)
             K = self._kernel(rng, kh, kw, rng.choice(styles_k))
-            iform = rng.choice(IMAGE_FORMS)
+            iform = rng.choice(IMAGE_FORMS_X)
             if "int" in iform:
                 # integer-dtype images against fractional kernels: any integer-typed accumulator truncates
                 A = self._values(rng, h * w, rng.choice(["int", "sparse", "neg", "pos"]))
@@ -495,10 +631,18 @@ class C03(PropertyCheck):
                 A = self._values(rng, h * w, rng.choice(styles_v))
             B = A if rng.random() < 0.5 else self._values(
                 rng, h * w, rng.choice(["int", "sparse", "neg", "pos"] if "int" in iform else styles_v))
+            kform = rng.choice(KERNEL_FORMS_X)
+            K = self._norm_arg({"kernel": K, "kernel_form": kform})["kernel"]
+            extra = {"mask_form": rng.choice(MASK_FORMS_X)}
+            if rng.random() < 0.25:
+                extra["geom"] = rng.choice(self.GEOMS)      # anisotropic pixel scales, origins far from zero
+            if rng.random() < 0.2:
+                extra["blur_form"] = rng.choice(IMAGE_FORMS if "int" in iform else IMAGE_FORMS_X)
+                extra["blur_store_native"] = rng.random() < 0.5
             yield {"tag": f"convolve_{mk}", "kind": "convolve", "mask": mask_json(m), "kernel": K,
                    "image": qlist(A), "blur": qlist(B), "store_native": rng.random() < 0.5,
-                   "image_form": iform, "kernel_form": rng.choice(KERNEL_FORMS),
-                   "interpolation_wrapper": rng.random() < 0.3}
+                   "image_form": iform, "kernel_form": kform,
+                   "interpolation_wrapper": rng.random() < 0.3, **extra}
             # mapping matrix on the same convolver class: signed / sparse / fractional / negative-only
             n_un = sum(1 for r in m for b in r if not b)
             ncols = rng.randint(1, 4)
@@ -506,13 +650,17 @@ class C03(PropertyCheck):
             M = [self._values(rng, ncols, vs) for _ in range(n_un)]
             yield {"tag": f"matrix_{vs}", "kind": "matrix", "mask": mask_json(m), "kernel": K,
                    "matrix": qmat(M), "ncols": ncols,
-                   "matrix_form": rng.choice(["float", "float", "int64", "float32", "fortran"]),
-                   "kernel_form": rng.choice(KERNEL_FORMS)}
+                   "matrix_form": rng.choice(MATRIX_FORMS_X), "interp": rng.random() < 0.2,
+                   "kernel_form": rng.choice([kform, "nd"]), **extra}
             if idx % 4 == 0:
                 A2 = self._values(rng, h * w, rng.choice(styles_v))
-                yield {"tag": "same", "kind": "same", "h": h, "w": w, "kernel": K, "image": qlist(A2),
-                       "image_form": rng.choice(["float", "int64", "pyint", "float32"]),
-                       "kernel_form": rng.choice(KERNEL_FORMS)}
+                c2 = {"tag": "same", "kind": "same", "h": h, "w": w, "kernel": K, "image": qlist(A2),
+                      "image_form": rng.choice(SAME_FORMS_X), "kernel_form": rng.choice([kform, "tview", "list"])}
+                if rng.random() < 0.3:
+                    c2["native_layout"] = rng.choice(LAYOUTS)
+                if "geom" in extra:
+                    c2["geom"] = extra["geom"]
+                yield c2
         # 0b. degenerate frames and masks: 1xN / Nx1 / 1x1 frames, no unmasked pixel, one, all
         for _ in range(30 if quick else 240):
             shape_kind = rng.choice(["row", "col", "one", "any"])
@@ -575,8 +723,10 @@ class C03(PropertyCheck):
                     "mask": mask_json(m), "kernel": K, "image": qlist(A), "normalize_psf": normalize,
                     "exposure": q(rng.choice([1, 1, 2, 4, Fraction(1, 2)])),
                     "subtract_background": rng.random() < 0.85,
-                    "image_form": rng.choice(["float", "int64", "pyint", "float32"]),
-                    "kernel_form": rng.choice(KERNEL_FORMS)}
+                    "image_form": rng.choice(SAME_FORMS_X),
+                    "kernel_form": rng.choice(KERNEL_FORMS_X), "mask_form": rng.choice(MASK_FORMS_X)}
+            if rng.random() < 0.3:
+                case["geom"] = rng.choice(self.GEOMS)
             if rng.random() < 0.2:
                 # "set but falsy" sky level 0.0: needs a non-negative blurred image for the Poisson draw
                 case["image"] = qlist(self._values(rng, h * w, "pos"))
@@ -612,6 +762,16 @@ class C03(PropertyCheck):
         # 4. histories on real reused objects (round 4): read -> in-place edit -> read, near-duplicate twins,
         #    fault then reuse, one object shared by two worlds, decoy reads / sibling calls first
         yield from self._histories(rng, 260 if quick else 2600, 8 if quick else 10)
+        # 5. round 5/6 streams (DESIGN §14): decades, nearly-degenerate ingredients, ownership and configuration
+        #    histories, option crossing, same-key neighbours, always-on large sizes
+        yield from self._siblings(rng, 24 if quick else 200, 8)
+        yield from self._decades(rng, 120 if quick else 1200, far=False)
+        yield from self._decades(rng, 40 if quick else 400, far=True)
+        yield from self._nearly(rng, 108 if quick else 1080)
+        yield from self._owner_histories(rng, 60 if quick else 600, 8)
+        yield from self._cfg_histories(rng, 45 if quick else 450, 8)
+        yield from self._options(rng, quick)
+        yield from self._big_cases(rng, tier)
 
     # ------------------------------------------------------------------ histories (round 4)
     TWIN = Fraction(1, 2 ** 18)      # relative perturbation ~3.8e-6: inside np.allclose's default rtol, >> 1e-9
@@ -917,7 +1077,7 @@ class C03(PropertyCheck):
             return {"kind": "simulate", "mask": mask_json(Wd["m"]), "kernel": Wd["K"], "image": qlist(Wd["A"]), **fixed}
         steps = [{"case": sub(W), "move": "base"}]
         moves = ["twin_psf", "twin_psf", "new_psf_same_shape", "edit_mask", "new_mask_same_shape",
-                 "new_image", "edit_image", "again", "back"]
+                 "new_image", "edit_image", "again", "back", "edit_psf", "edit_psf"]
         for _ in range(rng.randint(1, 2)):
             mv = rng.choice(moves)
             if mv.startswith("twin"):
@@ -930,6 +1090,19 @@ class C03(PropertyCheck):
             elif mv == "new_psf_same_shape":
                 W["K"] = kernel()
                 st["new"] = ["kernel"]
+            elif mv == "edit_psf":
+                # the LIVE PSF object (already normalised once by the simulator / dataset built from it) is edited in
+                # place through `__setitem__`: whatever was derived from it before must not survive.  Integer steps
+                # moved between two entries: every container holds them, the (power-of-two) sum is preserved
+                vals = [Fraction(v) for v in W["K"]["vals"]]
+                if len(vals) > 1:
+                    i, j = rng.sample(range(len(vals)), 2)
+                    d = rng.choice([1, -1, 2, 3])
+                    vals[i] += d
+                    vals[j] -= d
+                elif not normalize:
+                    vals[0] += rng.choice([1, 2, -3])
+                W["K"] = {**W["K"], "vals": qlist(vals)}
             elif mv == "edit_mask":
                 mm = [list(r) for r in W["m"]]
                 y, x = rng.randrange(my, h - my), rng.randrange(mx, w - mx)
@@ -968,6 +1141,580 @@ class C03(PropertyCheck):
                 yield self._hist_same(rng, hi)
             else:
                 yield self._hist_sim(rng, hi)
+
+    # ------------------------------------------------------------------ round 5/6 streams (DESIGN §14)
+    GEOMS = [{"ps": ["2", "1/2"], "origin": ["100000", "-30000"]},
+             {"ps": ["1/8", "1/8"], "origin": ["-4194304", "4194304"]},
+             {"ps": ["3", "3"], "origin": ["0", "0"]},
+             {"ps": ["1/1024", "5"], "origin": ["1/2", "-7"]}]
+
+    def _plain(self, rng, kind, hi=8, sides=(1, 3, 5), vstyle=None, kstyle=None):
+        """one ordinary, exactly representable world of the given kind (small integers / quarter dyadics), default
+        containers; the round-5/6 streams transform it"""
+        kh, kw = rng.choice(sides), rng.choice(sides)
+        h, w = self._frame_for(rng, kh, kw, 4, hi)
+        m, _mk = self._mask_with_margins(rng, h, w, kh // 2, kw // 2)
+        K = self._kernel(rng, kh, kw, kstyle or rng.choice(["signed", "dyadic", "ramp", "asym_pos"]))
+        vs = vstyle or rng.choice(["int", "sparse", "dyadic", "neg", "pos"])
+        if kind == "convolve":
+            A = self._values(rng, h * w, vs)
+            B = A if rng.random() < 0.4 else self._values(rng, h * w, vs)
+            return {"kind": "convolve", "mask": mask_json(m), "kernel": K, "image": qlist(A), "blur": qlist(B),
+                    "store_native": rng.random() < 0.5, "image_form": "native_float", "kernel_form": "nd",
+                    "interpolation_wrapper": rng.random() < 0.3}
+        if kind == "matrix":
+            n_un = sum(1 for r in m for b in r if not b)
+            ncols = rng.randint(1, 3)
+            return {"kind": "matrix", "mask": mask_json(m), "kernel": K, "ncols": ncols,
+                    "matrix": qmat([self._values(rng, ncols, vs) for _ in range(n_un)]),
+                    "matrix_form": "float", "kernel_form": "nd"}
+        if kind == "same":
+            return {"kind": "same", "h": h, "w": w, "kernel": K, "image": qlist(self._values(rng, h * w, vs)),
+                    "image_form": "float", "kernel_form": "nd"}
+        if kind == "simulate":
+            K = self._kernel(rng, kh, kw, "signed")
+            vals = [Fraction(v) for v in K["vals"]]
+            c = (kh // 2) * kw + kw // 2
+            normalize = rng.random() < 0.5
+            if normalize:
+                vals[c] += rng.choice([1, 2, 4, 8, -2, Fraction(1, 2)]) - sum(vals)
+            A = self._values(rng, h * w, rng.choice(["int", "pos", "sparse"]))
+            return {"kind": "simulate", "mask": mask_json(m), "kernel": {**K, "vals": qlist(vals)}, "image": qlist(A),
+                    "normalize_psf": normalize, "exposure": q(rng.choice([1, 1, 2, 4, Fraction(1, 2)])),
+                    "subtract_background": rng.random() < 0.85, "image_form": "float", "kernel_form": "nd"}
+        raise ValueError(kind)
+
+    @staticmethod
+    def _norm_arg(case):
+        """kernel_form "norm_arg" (the constructors' own `normalize=True`) needs entries summing to one: move the
+        centre entry (plain worlds only — a scaled / nearly-degenerate kernel keeps its values and its default form)"""
+        if case.get("kernel_form") != "norm_arg":
+            return case
+        K = case["kernel"]
+        vals = [Fraction(v) for v in K["vals"]]
+        if K["h"] % 2 == 0 or K["w"] % 2 == 0 or any(v.denominator > 8 or abs(v) > 64 for v in vals):
+            return case
+        if case.get("kind") == "simulate" and not C03._is_pow2(sum(vals)):
+            return case
+        if case.get("kind") == "simulate":
+            return case     # (its kernel sum is part of the world: used as is when it happens to be one)
+        vals[(K["h"] // 2) * K["w"] + K["w"] // 2] += 1 - sum(vals)
+        return {**case, "kernel": {**K, "vals": qlist(vals)}}
+
+    @staticmethod
+    def _is_pow2(x):
+        """x = ±2^j for an integer j (normalising by it is exact in doubles)"""
+        x = abs(Fraction(x))
+        if x == 0:
+            return False
+        n, d = x.numerator, x.denominator
+        return (n == 1 and d & (d - 1) == 0) or (d == 1 and n & (n - 1) == 0)
+
+    @staticmethod
+    def _scale_case(case, ka, kb):
+        """the same world with the kernel multiplied by 2^ka and every image / blurring image / matrix by 2^kb
+        (powers of two: every double operation stays exact, results scale by 2^(ka+kb))"""
+        fa, fb = Fraction(2) ** ka, Fraction(2) ** kb
+        c = dict(case)
+        c["kernel"] = {**case["kernel"], "vals": qlist([Fraction(v) * fa for v in case["kernel"]["vals"]])}
+        for key in ("image", "blur"):
+            if key in case:
+                c[key] = qlist([Fraction(v) * fb for v in case[key]])
+        if "matrix" in case:
+            c["matrix"] = qmat([[Fraction(v) * fb for v in row] for row in case["matrix"]])
+        return c
+
+    def _vary_forms(self, rng, case, p=0.6):
+        """equal-valued inputs through other containers / dtypes / layouts / constructors / geometry (R5-C)"""
+        c = dict(case)
+        if rng.random() > p:
+            return c
+        kind = c["kind"]
+        c["kernel_form"] = rng.choice(KERNEL_FORMS_X)
+        if rng.random() < 0.35:
+            c["geom"] = rng.choice(self.GEOMS)
+        if kind != "same":
+            c["mask_form"] = rng.choice(MASK_FORMS_X)
+        if kind == "convolve":
+            c["image_form"] = rng.choice(IMAGE_FORMS_X)
+            if rng.random() < 0.3:      # image and blurring image in different containers / storage
+                c["blur_form"] = rng.choice(IMAGE_FORMS_X)
+                c["blur_store_native"] = rng.random() < 0.5
+        elif kind == "matrix":
+            c["matrix_form"] = rng.choice(MATRIX_FORMS_X)
+            c["interp"] = rng.random() < 0.3
+        elif kind == "same":
+            c["image_form"] = rng.choice(SAME_FORMS_X)
+            if rng.random() < 0.4:
+                c["native_layout"] = rng.choice(LAYOUTS)
+        elif kind == "simulate":
+            c["image_form"] = rng.choice(SAME_FORMS_X)
+        return c
+
+    def _decades(self, rng, n, far):
+        """R5-A / R5-E: ordinary worlds with the whole world or ONE ingredient scaled by 2^k.  near: |k| <= 45
+        (1e±13: every absolute tolerance of `allclose`/`isclose` swallows or ignores the world); far: out to
+        2^±480 per ingredient with the products kept inside the normal double range"""
+        for i in range(n):
+            kind = ("convolve", "matrix", "same", "simulate")[i % 4]
+            base = self._plain(rng, kind, hi=7 if far else 8)
+            mode = rng.choice(["world", "kernel", "values"])
+            if far:
+                k = rng.choice([-1, 1]) * rng.randint(100, 480)
+                k2 = rng.choice([-1, 1]) * rng.randint(100, 400)
+                ka, kb = {"world": (k, k if abs(2 * k) <= 900 else -k // 2), "kernel": (k, 0),
+                          "values": (0, k)}[mode]
+                if mode == "world" and rng.random() < 0.5 and abs(k + k2) <= 900:
+                    ka, kb = k, k2
+            else:
+                k = rng.choice([-1, 1]) * rng.choice([rng.randint(1, 45), rng.randint(30, 45)])
+                ka, kb = {"world": (k, k), "kernel": (k, 0), "values": (0, k)}[mode]
+            if kind == "simulate":
+                # Poisson draw of the (discarded) noise realisation: counts must stay below ~2^62
+                # (upwards only; a normalised PSF may carry any factor, it is divided out: up to 2^±990)
+                norm = base["normalize_psf"]
+                if far and norm:
+                    ka = rng.choice([-1, 1]) * rng.randint(100, 990)
+                    kb = max(-400, min(kb, 19))
+                elif far:
+                    ka, kb = max(-480, min(ka, 19)), max(-400, min(kb, 19))
+                else:
+                    ka = max(-60, min(ka, 60 if norm else 19))
+                    kb = max(-60, min(kb, 19))
+                bg0 = self._background(base)
+                c = self._scale_case(base, ka, kb)
+                c["background"] = q(bg0 * Fraction(2) ** (kb if norm else ka + kb))
+            else:
+                c = self._scale_case(base, ka, kb)
+            c = self._vary_forms(rng, c, p=0.4)
+            c["tag"] = ("far_" if far else "decade_") + kind + "_" + mode
+            c["decade"] = [ka, kb]
+            yield c
+
+    @staticmethod
+    def _near(rng, n, r, c=None, same_sign=True):
+        """n values c·(1 + e·2^-r), e in -8..8 not all equal: nearly uniform (relative spread 2^-r·16), exact doubles"""
+        c = c if c is not None else rng.choice([1, 2, 3, 5, 7, 9, -3, -6])
+        es = [rng.randint(-8, 8) for _ in range(n)]
+        if n > 1 and len(set(es)) == 1:
+            es[0] += 1
+        return [Fraction(c) * (1 + Fraction(e, 2 ** r)) for e in es]
+
+    def _nearly(self, rng, n):
+        """R5-A: nearly-uniform / nearly-equal / nearly-zero / nearly-delta / nearly-symmetric / nearly-normalised
+        ingredients (relative difference 2^-20 … 2^-32: far outside the property's 1e-9, inside `allclose`'s default
+        rtol), the other ingredients plain integers so that every double operation stays exact; the near ingredient
+        at several decades"""
+        recipes = ["uniform_image", "uniform_image", "uniform_kernel", "delta_kernel", "zero_blur", "equal_blur",
+                   "zero_matrix", "equal_columns", "symmetric_kernel", "same_uniform_image", "same_uniform_kernel",
+                   "same_delta_kernel", "same_symmetric_kernel", "sim_uniform_image", "sim_normalised", "sim_normalised", "zero_image",
+                   "identity_matrix"]
+        for i in range(n):
+            rec = recipes[i % len(recipes)]
+            r = rng.choice([20, 22, 24, 27, 30, 32])
+            dec = rng.choice([-45, -30, -15, 0, 0, 15, 30, 45])
+            f = Fraction(2) ** dec
+            ikernel = rng.choice(["signed", "ramp", "asym_pos"])
+            if rec.startswith("sim_"):
+                base = self._plain(rng, "simulate", hi=8)
+                h, w = base["mask"]["h"], base["mask"]["w"]
+                if rec == "sim_uniform_image":
+                    # (the sky level, an integer up to ~2^18, is added to and subtracted from the blurred image:
+                    #  2^-24 keeps that exact)
+                    base["image"] = qlist(self._near(rng, h * w, rng.choice([20, 22, 24]), c=rng.choice([1, 3, 5, 9])))
+                    c = dict(base)
+                else:
+                    # PSF entries summing to 1 ± 2^-r ("already normalised" within isclose) with normalize_psf=True:
+                    # the normalisation is inexact in doubles -> the only stream compared with the 1e-9 tolerance
+                    vals = [Fraction(v) for v in base["kernel"]["vals"]]
+                    kh, kw = base["kernel"]["h"], base["kernel"]["w"]
+                    vals = [Fraction(int(v), 8) for v in vals]
+                    vals[(kh // 2) * kw + kw // 2] += 1 + rng.choice([1, -1, 3]) * Fraction(1, 2 ** r) - sum(vals)
+                    base["kernel"] = {**base["kernel"], "vals": qlist(vals)}
+                    base["normalize_psf"] = True
+                    base["image"] = qlist(self._values(rng, h * w, "pos"))
+                    base["tol"] = True
+                    base["exposure"] = "1"
+                    c = dict(base)
+                c.pop("background", None)
+                c["tag"] = "near_" + rec
+                yield self._vary_forms(rng, c, p=0.3)
+                continue
+            kind = "same" if rec.startswith("same_") else ("matrix" if "matrix" in rec or "columns" in rec else "convolve")
+            base = self._plain(rng, kind, hi=8, vstyle=rng.choice(["int", "pos", "neg"]), kstyle=ikernel)
+            kh, kw = base["kernel"]["h"], base["kernel"]["w"]
+            cen = (kh // 2) * kw + kw // 2
+            nA = len(base["image"]) if "image" in base else 0
+            what = rec[5:] if rec.startswith("same_") else rec
+            if what == "uniform_image":
+                base["image"] = qlist([v * f for v in self._near(rng, nA, r)])
+                if "blur" in base:
+                    base["blur"] = base["image"] if rng.random() < 0.5 else qlist([v * f for v in self._near(rng, nA, r)])
+            elif what == "zero_image":
+                base["image"] = qlist([Fraction(rng.randint(-8, 8), 2 ** r) * f for _ in range(nA)])
+                if "blur" in base:      # (same magnitude: a sum mixing 2^-77 with integers would round)
+                    base["blur"] = base["image"] if rng.random() < 0.5 else \
+                        qlist([Fraction(rng.randint(-8, 8), 2 ** r) * f for _ in range(nA)])
+            elif what == "uniform_kernel":
+                base["kernel"] = {**base["kernel"], "vals": qlist([v * f for v in self._near(rng, kh * kw, r)])}
+            elif what == "delta_kernel":
+                vals = [Fraction(rng.randint(-8, 8), 2 ** r) for _ in range(kh * kw)]
+                vals[cen] = Fraction(rng.choice([1, 1, 2, -1]))
+                if rng.random() < 0.3:
+                    vals[cen] += Fraction(rng.choice([1, -1]), 2 ** r)
+                base["kernel"] = {**base["kernel"], "vals": qlist([v * f for v in vals])}
+            elif what == "symmetric_kernel":
+                # symmetric under the flip up to one entry off by 2^-r: "correlation = convolution" shortcuts
+                vals = [Fraction(rng.randint(-6, 6)) for _ in range(kh * kw)]
+                for k in range(kh * kw):
+                    vals[kh * kw - 1 - k] = vals[k]
+                if kh * kw > 1:
+                    k = rng.randrange(kh * kw // 2)
+                    vals[k] = (vals[k] or Fraction(1)) * (1 + Fraction(rng.choice([1, -1, 5]), 2 ** r))
+                    if vals[kh * kw - 1 - k] == 0:
+                        vals[kh * kw - 1 - k] = Fraction(1)
+                base["kernel"] = {**base["kernel"], "vals": qlist([v * f for v in vals])}
+            elif what == "zero_blur":
+                base["blur"] = qlist([Fraction(rng.randint(-8, 8), 2 ** r) * f for _ in range(nA)])
+                base["image"] = qlist([Fraction(v) * f for v in base["image"]])
+            elif what == "equal_blur":
+                base["blur"] = qlist([Fraction(v) * (1 + Fraction(rng.randint(-8, 8), 2 ** r)) for v in base["image"]])
+            elif what in ("zero_matrix", "equal_columns", "identity_matrix"):
+                rows = len(base["matrix"])
+                if what == "zero_matrix":
+                    # entries that are exactly zero, tiny (below any plausible sparsity threshold) and ordinary
+                    ncols = base["ncols"]
+                    M = [[rng.choice([Fraction(0), Fraction(rng.randint(-8, 8), 2 ** rng.choice([r, 34])),
+                                      Fraction(rng.randint(-9, 9))]) * f for _ in range(ncols)] for _ in range(rows)]
+                elif what == "equal_columns":
+                    col = [Fraction(rng.randint(-9, 9)) for _ in range(rows)]
+                    ncols = rng.randint(2, 3)
+                    M = [[v * (1 + Fraction(rng.randint(-8, 8) if cc else 0, 2 ** r)) * f for cc in range(ncols)]
+                         for v in col]
+                else:
+                    # nearly the identity (one pixel per column): the blurred matrix is nearly the operator itself
+                    ncols = max(1, rows)
+                    M = [[(Fraction(1 if a == b else 0) + Fraction(rng.randint(-8, 8), 2 ** r)
+                           * (1 if rng.random() < 0.3 else 0)) * f for b in range(ncols)] for a in range(rows)]
+                base["matrix"], base["ncols"] = qmat(M), ncols
+            c = self._vary_forms(rng, base, p=0.3)
+            c["tag"] = "near_" + rec
+            c["decade"] = [dec, r]
+            yield c
+
+    def _owner_histories(self, rng, n, hi):
+        """R5-B ownership histories: observe -> overwrite IN PLACE every array / structure the API accepted or
+        returned (inputs, masks, kernels, images, frame tables, blurring masks, outputs, datasets) -> rebuild the
+        same world from fresh, equal inputs -> observe; three rounds (some: a sibling world in the middle).  Every
+        round is compared with the model / oracle value of a fresh world."""
+        for i in range(n):
+            kind = ("convolve", "matrix", "same", "simulate", "convolve", "matrix")[i % 6]
+            base = self._vary_forms(rng, self._plain(rng, kind, hi=hi), p=0.5)
+            variant = rng.choice(["same3", "same3", "same3", "sibling_mid", "kinds"])
+            cases = [base, base, base]
+            if variant == "sibling_mid":
+                # the same key (mask, shapes) with other kernel values in the middle
+                sib = dict(base)
+                kv = [Fraction(v) for v in base["kernel"]["vals"]]
+                if kind == "simulate" and base["normalize_psf"] and len(kv) > 1:
+                    a, b = rng.sample(range(len(kv)), 2)
+                    kv[a] += 1
+                    kv[b] -= 1
+                else:
+                    kv[rng.randrange(len(kv))] += rng.choice([1, -2, Fraction(1, 2)])
+                if kind == "simulate" and not sum(kv) and base["normalize_psf"]:
+                    kv = [Fraction(v) for v in base["kernel"]["vals"]]
+                sib["kernel"] = {**base["kernel"], "vals": qlist(kv)}
+                if kind == "simulate":
+                    bgm = max(self._background(base), self._background(sib))
+                    base = {**base, "background": q(bgm)}
+                    sib["background"] = q(bgm)
+                cases = [base, sib, base]
+            elif variant == "kinds" and kind in ("convolve", "matrix"):
+                h, w = base["mask"]["h"], base["mask"]["w"]
+                m = mask_from_json(base["mask"])
+                n_un = int((~m).sum())
+                if kind == "convolve":
+                    nc = rng.randint(1, 2)
+                    o2 = {"kind": "matrix", "mask": base["mask"], "kernel": base["kernel"], "ncols": nc,
+                          "matrix": qmat([self._values(rng, nc, "int") for _ in range(n_un)]),
+                          "matrix_form": rng.choice(MATRIX_FORMS_X), "kernel_form": base["kernel_form"]}
+                else:
+                    A = self._values(rng, h * w, "int")
+                    o2 = {"kind": "convolve", "mask": base["mask"], "kernel": base["kernel"], "image": qlist(A),
+                          "blur": qlist(A), "store_native": rng.random() < 0.5, "image_form": "native_float",
+                          "kernel_form": base["kernel_form"]}
+                for key in ("geom", "mask_form"):
+                    if key in base:
+                        o2[key] = base[key]
+                cases = [base, o2, base]
+            steps = []
+            for k, c in enumerate(cases):
+                st = {"case": c, "move": f"round{k + 1}", "fresh": True}
+                if k:
+                    st["scribble"] = rng.choice(["nan", "plus", "times"])
+                    st["move"] += "_after_" + st["scribble"]
+                steps.append(st)
+            yield {"tag": f"owner_{kind}_{variant}", "kind": "history", "family": "owner", "steps": steps}
+
+    def _cfg_histories(self, rng, n, hi):
+        """R5-D configuration histories: `general.structures.native_binned_only` — the one configuration value the
+        anchored code reads (Array2D.__init__, hence every image / kernel / dataset array) — flipped BETWEEN calls,
+        on reused and on fresh objects.  While it is set there is no slim storage, so the steps run under it are the
+        entry points that do not need one (whole-frame convolution, mapping-matrix blurring, the raw-array wrapper),
+        read back through `.native`; the steps after it is cleared use objects built while it was set."""
+        for i in range(n):
+            kind = ("same", "matrix", "convolve")[i % 3]
+            base = self._plain(rng, "matrix" if kind == "convolve" else kind, hi=hi)
+            base["kernel_form"] = rng.choice(KERNEL_FORMS)
+            if base["kind"] == "matrix":
+                base["interp"] = True
+            steps = []
+            pattern = rng.choice([[False, True, False], [True, False], [True, True, False], [False, True, True, False],
+                                  [True, False, True]])
+            m = mask_from_json(base["mask"]) if "mask" in base else None
+            for k, flag in enumerate(pattern):
+                c = dict(base)
+                if kind == "convolve" and not flag:
+                    # with the flag cleared: the Array2D entry points on the SAME mask / kernel / convolver objects
+                    h, w = base["mask"]["h"], base["mask"]["w"]
+                    A = self._values(rng, h * w, rng.choice(["int", "dyadic"]))
+                    c = {"kind": "convolve", "mask": base["mask"], "kernel": base["kernel"], "image": qlist(A),
+                         "blur": qlist(self._values(rng, h * w, "int")), "store_native": rng.random() < 0.5,
+                         "image_form": rng.choice(["native_float", "slim_float", "structure"]),
+                         "kernel_form": base["kernel_form"], "interpolation_wrapper": rng.random() < 0.3}
+                elif k and rng.random() < 0.5:
+                    # new values on the live objects (in-place edits) / new objects
+                    if c["kind"] == "same":
+                        c["image"] = qlist(self._values(rng, len(base["image"]), "int"))
+                    else:
+                        c["matrix"] = qmat([self._values(rng, base["ncols"], "int") for _ in base["matrix"]])
+                st = {"case": c, "move": f"cfg_{'on' if flag else 'off'}", "cfg": bool(flag)}
+                r = rng.random()
+                if r < 0.25:
+                    st["fresh"] = True
+                elif r < 0.45:
+                    st["new"] = [rng.choice(["kernel", "mask", "array", "matrix"])]
+                if not flag and rng.random() < 0.3:
+                    st["decoy"] = True
+                steps.append(st)
+            yield {"tag": f"cfg_{kind}_" + "".join("T" if f else "F" for f in pattern), "kind": "history",
+                   "family": "cfg", "steps": steps}
+
+    # option menus: parameter name -> non-default values (set-but-falsy values included).  The names are checked
+    # against the live signatures (`inspect.signature`), so an option that disappears is dropped and a NEW option
+    # shows up in the evidence histogram as `opts_unknown_<name>` (nothing can be asserted about it).
+    SIM_MENU = {"exposure_time": ["1/2", "4"], "background_sky_level": ["0"], "subtract_background_sky": [False],
+                "normalize_psf": [False], "include_poisson_noise_in_noise_map": [True],
+                "noise_if_add_noise_false": ["1/1048576", "8"], "noise_seed": [-1, 0, 2147483647]}
+    IMAGING_MENU = {"use_normalized_psf": ["omit"], "check_noise_map": [False, True],
+                    "noise_covariance_matrix": ["eye"], "over_sampling": ["explicit"], "pad_for_convolver": [False]}
+    CHAIN_MENU = {"chain": [["over", "mask"], ["mask", "over"], ["over_explicit", "mask"], ["noise_scaling", "mask"],
+                            ["remask", "mask"], ["mask", "remask", "mask"], ["rewrap", "mask"],
+                            ["rewrap", "over", "mask"], ["rewrap", "noise_scaling", "remask", "mask", "over"]]}
+
+    def _option_space(self):
+        import inspect
+        aa = load_autoarray()
+        out, unknown = [], []
+        handled = {"self", "psf", "add_poisson_noise_to_data", "data", "noise_map"}
+        for cls, menu, grp in ((aa.SimulatorImaging, self.SIM_MENU, "sim"), (aa.Imaging, self.IMAGING_MENU, "imaging")):
+            names = [n for n in inspect.signature(cls.__init__).parameters if n not in handled]
+            for name in names:
+                if name in menu:
+                    out += [(grp, name, v) for v in menu[name]]
+                else:
+                    unknown.append(name)
+        out += [("chain", "chain", v) for v in self.CHAIN_MENU["chain"]]
+        return out, unknown
+
+    def _apply_option(self, rng, case, grp, name, val):
+        """set one option on a simulate case (keeping the world exactly representable)"""
+        so = dict(case.get("sim_opts") or {})
+        ro = dict(case.get("rewrap_opts") or {})
+        if grp == "sim":
+            if name == "exposure_time":
+                case["exposure"] = val
+            elif name == "background_sky_level":
+                # sky level 0.0 ("set but falsy"): the blurred image itself must be non-negative for the Poisson draw
+                h, w = case["mask"]["h"], case["mask"]["w"]
+                case["image"] = qlist(self._values(rng, h * w, "pos"))
+                kv = [abs(int(Fraction(v))) for v in case["kernel"]["vals"]]
+                kh, kw = case["kernel"]["h"], case["kernel"]["w"]
+                cen = (kh // 2) * kw + kw // 2
+                if sum(kv) == 0:
+                    kv[cen] = 1
+                while sum(kv) & (sum(kv) - 1):     # power-of-two sum: normalisation exact either way
+                    kv[cen] += 1
+                case["kernel"] = {**case["kernel"], "vals": qlist(kv)}
+                case["background"] = "0"
+            elif name == "subtract_background_sky":
+                case["subtract_background"] = bool(val)
+            elif name == "normalize_psf":
+                case["normalize_psf"] = bool(val)
+            elif name == "include_poisson_noise_in_noise_map":
+                so["poisson_in_noise_map"] = bool(val)
+            elif name == "noise_if_add_noise_false":
+                so["noise_if_add_noise_false"] = val
+            elif name == "noise_seed":
+                so["noise_seed"] = int(val)
+        elif grp == "imaging":
+            chain = list(case.get("chain") or ["mask"])
+            if "rewrap" not in chain:
+                chain = ["rewrap"] + chain
+            case["chain"] = chain
+            if name == "use_normalized_psf":
+                ro["omit_flag"] = True      # left to the constructor default (only when the default is what is meant)
+            elif name == "check_noise_map":
+                ro["check_noise_map"] = bool(val)
+            elif name == "noise_covariance_matrix":
+                ro["covariance"] = True
+            elif name == "over_sampling":
+                ro["over_sampling"] = True
+            elif name == "pad_for_convolver":
+                ro["pad_for_convolver"] = bool(val)
+        else:
+            cur = case.get("chain")
+            case["chain"] = list(val) if not cur or cur == ["rewrap", "mask"] or "rewrap" not in cur else \
+                (["rewrap"] + [o for o in val if o != "rewrap"])
+        if so:
+            case["sim_opts"] = so
+        if ro:
+            case["rewrap_opts"] = ro
+
+    def _finish_opts(self, case):
+        """constraints between options: a Poisson noise map must be positive where the dataset is re-checked"""
+        so = case.get("sim_opts") or {}
+        if so.get("poisson_in_noise_map"):
+            # noise map = sqrt(Poisson draw): keep the counts far from zero (P(0 | lambda >= 50) < 2e-22)
+            bg = self._background({k: v for k, v in case.items() if k != "background"})
+            if "background" in case and Fraction(case["background"]) == 0:
+                case["sim_opts"] = {k: v for k, v in so.items() if k != "poisson_in_noise_map"}
+            else:
+                case["background"] = q(bg + 128)
+        if so.get("omit_background") and Fraction(case.get("background", "1")) != 0:
+            so.pop("omit_background")
+        return case
+
+    def _options(self, rng, quick):
+        """R5-F: every pair of options of SimulatorImaging / Imaging (introspected) / dataset-operation chains,
+        each non-default value of one with each non-default value of the other, plus every single option; omitted
+        (default) vs explicitly passed values"""
+        space, unknown = self._option_space()
+        for name in unknown:
+            yield {"tag": f"opts_unknown_{name}", **self._plain(rng, "simulate", hi=7)}
+        singles = list(space)
+        pairs = [(a, b) for i, a in enumerate(space) for b in space[i + 1:] if (a[0], a[1]) != (b[0], b[1])]
+        rng.shuffle(pairs)
+        if quick:
+            # every value pair is visited over seeds; every run sees every single value, every pair of option NAMES
+            # and every chain x {normalize_psf=False}
+            seen, keep = set(), []
+            for a, b in pairs:
+                key = (a[1], b[1])
+                force = {a[1], b[1]} == {"chain", "normalize_psf"}
+                if key in seen and not force:
+                    continue
+                seen.add(key)
+                keep.append((a, b))
+            pairs = keep
+        for combo in [(a,) for a in singles] + pairs:
+            case = self._plain(rng, "simulate", hi=7)
+            case["normalize_psf"] = True
+            if not self._is_pow2(sum(Fraction(v) for v in case["kernel"]["vals"])):
+                # power-of-two sum so that either normalisation setting is exact
+                kv = [Fraction(v) for v in case["kernel"]["vals"]]
+                cen = (case["kernel"]["h"] // 2) * case["kernel"]["w"] + case["kernel"]["w"] // 2
+                kv[cen] += rng.choice([1, 2, 4, -2]) - sum(kv)
+                case["kernel"] = {**case["kernel"], "vals": qlist(kv)}
+            for grp, name, val in combo:
+                self._apply_option(rng, case, grp, name, val)
+            so = dict(case.get("sim_opts") or {})
+            for om in ("omit_background", "omit_subtract", "omit_normalize"):
+                if rng.random() < 0.3:
+                    so[om] = True
+            if so:
+                case["sim_opts"] = so
+            if rng.random() < 0.3:
+                case["geom"] = rng.choice(self.GEOMS)
+            case["kernel_form"] = rng.choice(KERNEL_FORMS_X)
+            case = self._finish_opts(case)
+            case["tag"] = ("opts_single_" + combo[0][1]) if len(combo) == 1 else \
+                "opts_pair_" + "x".join(sorted(g for g, _n, _v in combo))
+            case["options"] = [[g, n_, str(v)] for g, n_, v in combo]
+            yield case
+
+    def _siblings(self, rng, n, hi):
+        """same-key-different-world neighbours, consecutive in the stream: same mask + kernel SHAPE with other kernel
+        values, same kernel with another mask of the same shape, same everything with other images / flags — a
+        process-wide memo keyed too loosely serves the second one the first one's tables"""
+        for i in range(n):
+            kind = ("convolve", "matrix", "same", "simulate")[i % 4]
+            base = self._plain(rng, kind, hi=hi)
+            yield {**base, "tag": f"sibling_{kind}_0"}
+            for j in range(1, 3):
+                c = dict(base)
+                what = rng.choice(["kernel", "kernel", "mask", "values", "flag"])
+                kv = [Fraction(v) for v in base["kernel"]["vals"]]
+                if what == "kernel":
+                    if kind == "simulate" and base["normalize_psf"]:
+                        if len(kv) > 1:
+                            a, b = rng.sample(range(len(kv)), 2)
+                            kv[a] += 1
+                            kv[b] -= 1
+                    else:
+                        kv[rng.randrange(len(kv))] += rng.choice([1, -2, Fraction(1, 2), 3])
+                        if kind == "simulate" and base["normalize_psf"] and sum(kv) == 0:
+                            kv = [Fraction(v) for v in base["kernel"]["vals"]]
+                    c["kernel"] = {**base["kernel"], "vals": qlist(kv)}
+                elif what == "mask" and "mask" in base:
+                    m = mask_from_json(base["mask"])
+                    kh, kw = base["kernel"]["h"], base["kernel"]["w"]
+                    h, w = m.shape
+                    cells = [(y, x) for y in range(kh // 2, h - kh // 2) for x in range(kw // 2, w - kw // 2)]
+                    if cells:
+                        y, x = rng.choice(cells)
+                        m = m.copy()
+                        m[y, x] = not m[y, x]
+                        c["mask"] = mask_json(m.tolist())
+                        if kind == "matrix":
+                            c["matrix"] = qmat([self._values(rng, base["ncols"], "int") for _ in range(int((~m).sum()))])
+                elif what == "values":
+                    if kind == "matrix":
+                        c["matrix"] = qmat([self._values(rng, base["ncols"], "dyadic") for _ in base["matrix"]])
+                    else:
+                        c["image"] = qlist(self._values(rng, len(base["image"]), "pos" if kind == "simulate" else "dyadic"))
+                elif what == "flag":
+                    if kind == "simulate":
+                        if self._is_pow2(sum(kv)):
+                            c["normalize_psf"] = not base["normalize_psf"]
+                    elif kind == "convolve":
+                        c["store_native"] = not base["store_native"]
+                        c["interpolation_wrapper"] = not base["interpolation_wrapper"]
+                c["tag"] = f"sibling_{kind}_{what}"
+                yield c
+
+    # always-on mid / large sizes (R5-E): beyond 2^16 frame pixels for the whole-frame paths and the Convolver set-up,
+    # beyond 2^15 unmasked pixels (int16 index tables) for the masked convolution; recipes of the constant-directed
+    # machinery below with `hint` = the implicit limit straddled; judged by the vectorised oracle alone
+    def _big_cases(self, rng, tier):
+        plan = [("frame_same", 65536 + rng.randint(1, 6000), 65536), ("frame", 65536 + rng.randint(1, 3000), 65536),
+                ("unmasked", 32768 + rng.randint(1, 1500), 32768)]
+        if tier != "quick":
+            plan += [("frame_sim", 65536 + rng.randint(1, 6000), 65536), ("blurring", 32768 + rng.randint(2, 999), 32768),
+                     ("columns", 65536 + rng.randint(1, 999), 65536), ("frame_same", 262144 + rng.randint(1, 9999), 262144)]
+        for dim, n, lim in plan:
+            # (frames: a kernel with extent on BOTH axes, so that row- and column-banded fast paths both show)
+            c = self._large_case(dim, n, lim, rng, kshape=(1, 3) if dim == "unmasked" else
+                                 (rng.choice([(3, 3), (3, 5), (5, 3)]) if dim.startswith("frame") else None))
+            if c is None:
+                continue
+            c.pop("_cost", None)
+            c["tag"] = "big_" + dim
+            c["always_on"] = True
+            if dim == "unmasked":
+                c["ncols"] = 1
+            yield c
 
     # ------------------------------------------------------------------ large cases (round 4, constant-directed)
     # A large case is a small RECIPE (frame, mask recipe, kernel recipe, seed); the arrays are rebuilt from it by
@@ -1077,7 +1824,7 @@ class C03(PropertyCheck):
                 near |= un[i:i + h, j:j + w]
         return near & m      # True = blurring PIXEL (the library's blurring mask is its negation)
 
-    def _large_case(self, dim, n, hint, rng):
+    def _large_case(self, dim, n, hint, rng, kshape=None):
         """one recipe whose size in dimension `dim` is exactly n (frame: as close as a non-square frame allows),
         with a cost estimate in seconds of pure-Python work"""
         if n < 1:
@@ -1087,6 +1834,8 @@ class C03(PropertyCheck):
                 "fine": rng.random() < 0.7, "store_native": rng.random() < 0.5}
         if dim == "unmasked":
             kh, kw = rng.choice([(3, 3), (1, 3), (3, 1), (3, 5), (5, 3)]) if n < 20000 else rng.choice([(3, 3), (1, 3), (3, 1)])
+            if kshape:
+                kh, kw = kshape
             hy, hx = kh // 2, kw // 2
             iw = max(1, int((n * rng.choice([0.35, 0.6, 1.7, 2.6])) ** 0.5))      # never square
             holes = rng.choice([0, 0, 37, 11])
@@ -1131,6 +1880,8 @@ class C03(PropertyCheck):
             if not fits:
                 return None
             kh, kw = rng.choice(fits)
+            if kshape and tuple(kshape) in fits:
+                kh, kw = kshape
             hy, hx = kh // 2, kw // 2
             if dim == "frame_same":
                 return {**base, "sub": "same", "h": hh, "w": ww, "kernel_recipe": {"h": kh, "w": kw, "seed": seed % 13},
@@ -1287,7 +2038,8 @@ class C03(PropertyCheck):
     def _oracle_large(self, case, obs):
         m, K, A, B = self._large_world(case)
         kh, kw = K.shape
-        what = f"[{case['dim']} = {case['n']} for the new constant {case['hint']}] "
+        what = (f"[{case['dim']} = {case['n']}, beyond the implicit limit {case['hint']}] " if case.get("always_on")
+                else f"[{case['dim']} = {case['n']} for the new constant {case['hint']}] ")
         if "err" in obs:
             return False, what + f"valid input raised {str(obs)[:200]}"
         if case["sub"] == "same":
@@ -1374,7 +2126,7 @@ class C03(PropertyCheck):
 
         env = env or _Env(aa)
         m = mask_from_json(case["mask"])
-        mask = env.mask(m)
+        mask = env.mask(m, case)
         kernel = env.kernel(case)
         try:
             cv = env.convolver(mask, kernel, case)
@@ -1382,36 +2134,129 @@ class C03(PropertyCheck):
             return mask, kernel, None, {"err": "even_kernel"}
         except exc.MaskException as e:
             return mask, kernel, None, {"err": "footprint_outside" if "extends beyond" in str(e) else "MaskException"}
+        env.track(mask, kernel, cv.image_frame_1d_indexes, cv.image_frame_1d_kernels, cv.image_frame_1d_lengths,
+                  cv.blurring_frame_1d_indexes, cv.blurring_frame_1d_kernels, cv.blurring_frame_1d_lengths,
+                  cv.mask_index_array, cv.blurring_mask)
         return mask, kernel, cv, None
 
     @staticmethod
-    def _kernel_obj(aa, case):
-        """the kernel through one of the equivalent constructors / container types"""
+    def _geom(case):
+        """(pixel_scales, origin) of the case's world — (1.0, (0.0, 0.0)) unless the case carries a geometry"""
+        g = case.get("geom")
+        if not g:
+            return 1.0, (0.0, 0.0)
+        return tuple(float(Fraction(v)) for v in g["ps"]), tuple(float(Fraction(v)) for v in g["origin"])
+
+    @staticmethod
+    def _kernel_obj(aa, case, track=None):
+        """the kernel through one of the equivalent constructors / container types / memory layouts"""
         Kj = case["kernel"]
         shape = (Kj["h"], Kj["w"])
         form = case.get("kernel_form", "nd")
+        ps, _origin = C03._geom(case)
+        keep = track if track is not None else (lambda *a: None)
         if form == "manual_mask":
-            km = aa.Mask2D.all_false(shape_native=shape, pixel_scales=1.0)
+            km = aa.Mask2D.all_false(shape_native=shape, pixel_scales=ps)
             return aa.Kernel2D(values=_typed(Kj["vals"], None, "pyfloat"), mask=km)
+        if form in LAYOUTS:
+            vals = _layout(_typed(Kj["vals"], shape, "nd"), form)
+            keep(vals)
+            return aa.Kernel2D.no_mask(values=vals, pixel_scales=ps)
+        if form == "float32" and _holds(np.zeros(1, dtype=np.float32), [float(Fraction(v)) for v in Kj["vals"]]):
+            return aa.Kernel2D.no_mask(values=_typed(Kj["vals"], shape, "float32"), pixel_scales=ps)
+        if form in ("slim_shape", "slim_list_shape"):
+            vals = _typed(Kj["vals"], None, "pyfloat" if form == "slim_list_shape" else "nd")
+            return aa.Kernel2D.no_mask(values=vals, shape_native=shape, pixel_scales=ps)
+        if form in ("from_kernel", "from_native", "copy", "store_native"):
+            vals = _typed(Kj["vals"], shape, "nd")
+            keep(vals)
+            if form == "store_native":
+                km = aa.Mask2D.all_false(shape_native=shape, pixel_scales=ps)
+                return aa.Kernel2D(values=vals, mask=km, store_native=True)
+            k0 = aa.Kernel2D.no_mask(values=vals, pixel_scales=ps)
+            keep(k0)
+            if form == "from_kernel":      # a structure built from another structure
+                return aa.Kernel2D(values=k0, mask=k0.mask)
+            if form == "from_native":
+                return aa.Kernel2D.no_mask(values=k0.native, pixel_scales=ps)
+            return k0.copy()
+        if form == "norm_arg":
+            # `normalize=True` of the constructor on 2^j-multiples of a kernel whose entries sum to one: the result
+            # is that kernel again, exactly
+            fr = [Fraction(v) for v in Kj["vals"]]
+            if sum(fr) == 1 and max(abs(v) for v in fr) < 2 ** 60:
+                j = (len(fr) * 7 + shape[0]) % 9 - 4
+                vals = _typed([v * Fraction(2) ** j for v in fr], shape, "nd")
+                if j % 2:
+                    return aa.Kernel2D.no_mask(values=vals, pixel_scales=ps, normalize=True)
+                km = aa.Mask2D.all_false(shape_native=shape, pixel_scales=ps)
+                return aa.Kernel2D(values=vals, mask=km, normalize=True)
         vals = _typed(Kj["vals"], shape, {"list": "pyfloat", "pyint": "pyint", "int64": "int64"}.get(form, "nd"))
-        return aa.Kernel2D.no_mask(values=vals, pixel_scales=1.0)
+        keep(vals)
+        return aa.Kernel2D.no_mask(values=vals, pixel_scales=ps)
 
     @staticmethod
-    def _image_obj(aa, vals, shape, mask, form, store_native):
-        """Array2D on `mask` holding the native values `vals`, built from the requested container / dtype"""
+    def _mask_obj(aa, m, case, track=None):
+        """Mask2D from the boolean array `m` through one of the equivalent containers / layouts / constructors"""
+        form = case.get("mask_form", "nd")
+        ps, origin = C03._geom(case)
+        keep = track if track is not None else (lambda *a: None)
+        m = np.array(m, dtype=bool)
+        if form in LAYOUTS:
+            data = _layout(m, form)
+        elif form == "list":
+            data = m.tolist()
+        elif form == "int":
+            data = m.astype(np.int64)
+        elif form == "uint8":
+            data = m.astype(np.uint8)
+        elif form == "invert":
+            data = ~m
+            keep(data)
+            return aa.Mask2D(mask=data, pixel_scales=ps, origin=origin, invert=True)
+        elif form in ("from_mask", "from_mask_geom"):
+            # a Mask2D built from a Mask2D; the explicit origin / pixel scales are the ones in force
+            m0 = aa.Mask2D(mask=m, pixel_scales=(ps if form == "from_mask" else (3.0, 0.25)),
+                           origin=(origin if form == "from_mask" else (7.0, -2.0)))
+            keep(m0)
+            return aa.Mask2D(mask=m0, pixel_scales=ps, origin=origin)
+        else:
+            data = m
+        keep(data)
+        return aa.Mask2D(mask=data, pixel_scales=ps, origin=origin)
+
+    @staticmethod
+    def _image_obj(aa, vals, shape, mask, form, store_native, track=None):
+        """Array2D on `mask` holding the native values `vals`, built from the requested container / dtype / layout"""
         mb = np.asarray(mask, dtype=bool)
+        keep = track if track is not None else (lambda *a: None)
         if form.startswith("slim"):
             sl = [v for v, mk in zip(vals, mb.ravel()) if not mk]
             typ = {"slim_int64": "int64", "slim_pyint": "pyint"}.get(form, "nd")
             data = _typed(sl, None, typ)
             if isinstance(data, np.ndarray) and data.size == 0:
                 data = np.zeros(0, dtype=data.dtype)
+            if form in ("slim_strided", "slim_readonly"):
+                data = _layout(data, form[5:])
+            keep(data)
             return aa.Array2D(values=data, mask=mask, store_native=store_native)
         typ = {"native_int64": "int64", "native_pyint": "pyint", "native_float32": "float32",
-               "native_pyfloat": "pyfloat"}.get(form, "nd")
+               "native_pyfloat": "pyfloat", "native_float32_fortran": "float32",
+               "native_int64_strided": "int64"}.get(form, "nd")
         data = _typed(vals, shape, typ)
+        if form in ("native_fortran", "native_tview", "native_strided", "native_readonly"):
+            data = _layout(data, form[7:])
+        elif form == "native_float32_fortran":
+            data = _layout(data, "fortran")
+        elif form == "native_int64_strided":
+            data = _layout(data, "strided")
+        keep(data)
         if form == "structure":   # an autoarray structure passed where an array is accepted
             data = aa.Array2D.no_mask(values=data, pixel_scales=1.0).native   # as `apply_mask` passes `.native`
+        elif form in ("from_structure", "from_structure_native"):
+            # an Array2D built from an Array2D that lives on the same mask (stored slim / natively)
+            data = aa.Array2D(values=data, mask=mask, store_native=(form == "from_structure_native"))
+            keep(data)
         return aa.Array2D(values=data, mask=mask, store_native=store_native)
 
     def run_impl(self, case):
@@ -1427,13 +2272,65 @@ class C03(PropertyCheck):
         observation of that step's world, to be compared with the model / oracle value of a FRESH object"""
         env = _Env(aa)
         out = []
-        for st in case["steps"]:
-            env.begin(st)
-            try:
-                out.append(self._run_one(aa, st["case"], env))
-            except Exception as e:     # recorded per step so that the failing step is named
-                out.append({"err": type(e).__name__, "msg": str(e)[:300]})
+        cfg0 = _cfg_get()
+        try:
+            for st in case["steps"]:
+                try:
+                    env.begin(st)
+                    out.append(self._run_one(aa, st["case"], env))
+                except Exception as e:     # recorded per step so that the failing step is named
+                    out.append({"err": type(e).__name__, "msg": str(e)[:300]})
+        finally:
+            _cfg_set(cfg0)      # configuration histories: the pinned value is restored whatever happened
         return {"steps": out}
+
+    @staticmethod
+    def _chain(aa, env, case, ds, mask, kernel):
+        """the masked dataset reached from the simulated one through the case's chain of dataset operations
+        (default: one `apply_mask`); every operation must carry data, PSF and the normalisation flag along"""
+        chain = case.get("chain") or ["mask"]
+        ro = case.get("rewrap_opts") or {}
+        d = ds
+        for op in chain:
+            if op == "mask":
+                d = d.apply_mask(mask=mask)
+            elif op == "remask":
+                # first another admissible mask of the same frame (one more pixel masked), then the case's mask
+                mb = np.array(np.asarray(mask, dtype=bool))
+                un = np.argwhere(~mb)
+                if len(un):
+                    mb[tuple(un[len(un) // 2])] = True
+                ps, origin = C03._geom(case)
+                d = d.apply_mask(mask=aa.Mask2D(mask=mb, pixel_scales=ps, origin=origin))
+            elif op == "over":
+                d = d.apply_over_sampling(over_sampling=aa.OverSamplingDataset())
+            elif op == "over_explicit":
+                d = d.apply_over_sampling(
+                    over_sampling=aa.OverSamplingDataset(uniform=aa.OverSamplingUniform(sub_size=2)))
+            elif op == "noise_scaling":
+                d = d.apply_noise_scaling(mask=mask, noise_value=float(Fraction(ro.get("noise_value", "100000000"))),
+                                          should_zero_data=False)
+            elif op == "rewrap":
+                # the simulated data wrapped by hand, as a user loading data does: raw kernel + the flag
+                kw = {"data": d.data, "noise_map": d.noise_map, "psf": kernel,
+                      "use_normalized_psf": bool(case.get("normalize_psf", True))}
+                if ro.get("omit_flag") and case.get("normalize_psf", True):
+                    kw.pop("use_normalized_psf")
+                if "check_noise_map" in ro:
+                    kw["check_noise_map"] = bool(ro["check_noise_map"])
+                if ro.get("covariance"):
+                    n = int(np.prod(d.data.shape_native))
+                    kw["noise_covariance_matrix"] = np.eye(n)
+                if ro.get("over_sampling"):
+                    kw["over_sampling"] = aa.OverSamplingDataset()
+                if "pad_for_convolver" in ro:
+                    kw["pad_for_convolver"] = bool(ro["pad_for_convolver"])
+                d = aa.Imaging(**kw)
+            else:
+                raise ValueError(op)
+            env.track(d.data, d.noise_map, d.psf)
+        env.o["masked"] = d
+        return d
 
     def _run_one(self, aa, case, env):
         from autoarray import exc
@@ -1442,17 +2339,23 @@ class C03(PropertyCheck):
         if kind == "same":
             h, w = case["h"], case["w"]
             kernel = env.kernel(case)
-            arr = env.array_no_mask(case["image"], (h, w), case.get("image_form", "float"))
+            arr = env.array_no_mask(case["image"], (h, w), case.get("image_form", "float"), case=case)
             mm = np.array([[(y * 3 + x) % 4 == 1 for x in range(w)] for y in range(h)], dtype=bool)
             env.before_observe(kernel=kernel, array=arr)
+            ps, origin = self._geom(case)
 
             def whole():
                 return kernel.convolved_array_from(array=arr)
 
             def masked():
                 # the masked twin on a checkerboard-ish mask: must be the same numbers gathered at the mask
-                mask2 = aa.Mask2D(mask=mm, pixel_scales=1.0)
-                return kernel.convolved_array_with_mask_from(array=arr.native, mask=mask2)
+                mask2 = aa.Mask2D(mask=mm, pixel_scales=ps, origin=origin)
+                src = arr.native
+                lay = case.get("native_layout")
+                if lay:     # a bare ndarray (other memory layout) where the native array is accepted
+                    src = _layout(np.array(np.asarray(arr.native.array)), lay)
+                env.track(mask2, src)
+                return kernel.convolved_array_with_mask_from(array=src, mask=mask2)
             try:
                 if env.swap():
                     out2 = masked()
@@ -1462,18 +2365,26 @@ class C03(PropertyCheck):
                     out2 = masked()
             except exc.KernelException:
                 return {"err": "even_kernel"}
-            return {"same": qlist(np.asarray(out.native.array).ravel()),
-                    "same_masked": qlist(np.asarray(out2.slim.array).ravel())}
+            env.track(kernel, arr, out, out2)
+            nat = out.native
+            env.track(nat)
+            if env.cfg():       # `native_binned_only` in force: there is no slim storage, gather from the native one
+                sm = np.asarray(out2.native.array)[~mm]
+            else:
+                sm = np.asarray(out2.slim.array).ravel()
+            return {"same": qlist(np.asarray(nat.array).ravel()), "same_masked": qlist(sm)}
         mask, kernel, cv, err = self._convolver(aa, case, env)
         if err:
             return err
         h, w = mask.shape_native
         bm = mask.derive_mask.blurring_from(kernel_shape_native=kernel.shape_native)
+        env.track(bm)
         if kind == "convolve":
             sn = bool(case.get("store_native"))
             iform = case.get("image_form", "native_float")
             img = env.image("image", case["image"], (h, w), mask, iform, sn)
-            blur = env.image("blur", case["blur"], (h, w), bm, iform, sn)
+            blur = env.image("blur", case["blur"], (h, w), bm, case.get("blur_form", iform),
+                             bool(case.get("blur_store_native", sn)))
             env.before_observe(mask=mask, kernel=kernel, cv=cv, image=img, blur=blur)
 
             def both():
@@ -1481,7 +2392,9 @@ class C03(PropertyCheck):
 
             def no_blurring():
                 if case.get("interpolation_wrapper"):   # thin wrapper of the same operator on a raw slim array
-                    return cv.convolve_image_no_blurring_interpolation(image=np.array(img.slim.array))
+                    raw = np.array(img.slim.array)
+                    env.track(raw)
+                    return cv.convolve_image_no_blurring_interpolation(image=raw)
                 return cv.convolve_image_no_blurring(image=img)
             if env.swap():
                 nb = no_blurring()
@@ -1489,13 +2402,24 @@ class C03(PropertyCheck):
             else:
                 out = both()
                 nb = no_blurring()
-            return {"blurred": qlist(np.asarray(out.slim.array)), "no_blurring": qlist(np.asarray(nb.slim.array)),
+            o_s, nb_s = out.slim, nb.slim
+            env.track(img, blur, out, nb, o_s, nb_s)
+            return {"blurred": qlist(np.asarray(o_s.array)), "no_blurring": qlist(np.asarray(nb_s.array)),
                     "blurring_mask": _bits(cv.blurring_mask)}
         if kind == "matrix":
             M = env.matrix(case)
             env.before_observe(mask=mask, kernel=kernel, cv=cv, matrix=M)
             out = cv.convolve_mapping_matrix(mapping_matrix=M)
-            return {"matrix": qmat(np.asarray(out))}
+            env.track(M, out)
+            obs = {"matrix": qmat(np.asarray(out))}
+            if case.get("interp"):
+                # the thin no-blurring wrapper on column 0 as a raw slim array, read back through the native form
+                raw = np.array(np.asarray(M, dtype=float)[:, 0])
+                nb = cv.convolve_image_no_blurring_interpolation(image=raw)
+                mb = np.asarray(mask, dtype=bool)
+                env.track(raw, nb)
+                obs["interp_col0"] = qlist(np.asarray(nb.native.array)[~mb])
+            return obs
         if kind == "operator":
             mb = np.asarray(mask, dtype=bool)
             bb = np.asarray(bm, dtype=bool)
@@ -1509,20 +2433,27 @@ class C03(PropertyCheck):
                 cols.append(qlist(np.asarray(out.slim.array)))
             return {"support": [list(p) for p in support], "columns": cols}
         if kind == "simulate":
-            img = env.array_no_mask(case["image"], (h, w), case.get("image_form", "float"), role="simimage")
+            img = env.array_no_mask(case["image"], (h, w), case.get("image_form", "float"), role="simimage", case=case)
             A = np.array(np.asarray(img.native.array))
             bg = float(self._background(case))
             sim = env.simulator(case, kernel, bg)
             ds = env.dataset(sim, img)
-            masked = env.masked(ds, mask)
+            env.track(img, sim.psf, ds.data, ds.noise_map, ds.psf)
+            if "chain" in case:
+                masked = self._chain(aa, env, case, ds, mask, kernel)
+            else:
+                masked = env.masked(ds, mask)
             if tuple(masked.data.shape_native) != (h, w):
                 return {"err": "padded", "shape": list(masked.data.shape_native)}
             env.before_observe(mask=mask, kernel=kernel, dataset=ds, masked=masked)
             cv2 = masked.convolver
             bm2 = masked.mask.derive_mask.blurring_from(kernel_shape_native=kernel.shape_native)
-            model = cv2.convolve_image(image=aa.Array2D(values=A, mask=masked.mask),
-                                       blurring_image=aa.Array2D(values=A, mask=bm2))
+            i2, b2 = aa.Array2D(values=A, mask=masked.mask), aa.Array2D(values=A, mask=bm2)
+            model = cv2.convolve_image(image=i2, blurring_image=b2)
             resid = np.asarray(masked.data.slim.array) - np.asarray(model.slim.array)
+            env.track(masked.data, masked.noise_map, masked.psf, masked.mask, bm2, i2, b2, model, A,
+                      cv2.image_frame_1d_kernels, cv2.image_frame_1d_indexes, cv2.blurring_frame_1d_kernels,
+                      cv2.blurring_frame_1d_indexes, cv2.image_frame_1d_lengths, cv2.blurring_frame_1d_lengths)
             return {"simulated": qlist(np.asarray(ds.data.native.array).ravel()),
                     "data": qlist(np.asarray(masked.data.slim.array)),
                     "psf": qlist(np.asarray(masked.psf.native.array).ravel()),
@@ -1558,7 +2489,7 @@ class C03(PropertyCheck):
         if kind == "simulate":
             return [{"op": "c03.simulate_fit", "mask": case["mask"], "kernel": case["kernel"],
                      "image": case["image"], "normalize_psf": bool(case.get("normalize_psf", True)),
-                     "background": str(self._background(case)), "exposure": case.get("exposure", "1"),
+                     "background": q(self._background(case)), "exposure": case.get("exposure", "1"),
                      "subtract_background": bool(case.get("subtract_background", True))}]
         if kind == "operator":
             if "err" in impl_obs:
@@ -1586,13 +2517,17 @@ class C03(PropertyCheck):
         if kind == "convolve":
             return responses[0]["ok"]
         if kind == "matrix":
-            return {"matrix": responses[0]["ok"]}
+            mo = {"matrix": responses[0]["ok"]}
+            if case.get("interp"):      # clause c: column 0 of the blurred matrix IS the no-blurring operator on column 0
+                mo["interp_col0"] = [row[0] for row in responses[0]["ok"]]
+            return mo
         if kind == "simulate":
             return responses[0]["ok"]
         if kind == "operator":
             return {"columns": [r["ok"]["blurred"] for r in responses]}
         raise ValueError(kind)
 
+    TOL = Fraction(1, 10 ** 9)
     FAIL_CAP = 40       # see c10.py: bounds the runner's work when a large part of the cases fail
     _fails = 0
     _disagreements = 0
@@ -1620,6 +2555,14 @@ class C03(PropertyCheck):
         kind = case["kind"]
         if kind == "operator":
             return cmp.diff({"columns": impl_obs["columns"]}, model_obs)
+        if case.get("tol"):
+            # the only inexact stream (a PSF whose entries sum to 1 + 2^-r is normalised by a non-power of two):
+            # DESIGN §2.4 tolerance 1e-9·max(1,|value|) at ordinary magnitudes; counted as tolerant comparisons
+            c2 = Cmp(self.TOL, self.TOL)
+            d = c2.diff(impl_obs, model_obs)
+            cmp.exact += c2.exact
+            cmp.tolerant += c2.tolerant
+            return d
         return cmp.diff(impl_obs, model_obs)
 
     # ------------------------------------------------------------------ oracle (independent of the model)
@@ -1651,7 +2594,12 @@ class C03(PropertyCheck):
         return [v[y * w:(y + 1) * w] for y in range(h)]
 
     def oracle(self, case, obs):
-        ok, detail = self._oracle(case, obs)
+        try:
+            ok, detail = self._oracle(case, obs)
+        except ValueError as e:
+            if "Fraction" not in str(e):
+                raise
+            ok, detail = False, f"the output contains a non-finite value ({e}): {str(obs)[:160]}"
         if not ok and "_s" not in case and "corpus_file" not in case:
             if self._fails >= self.FAIL_CAP:
                 return True, ""
@@ -1746,6 +2694,10 @@ class C03(PropertyCheck):
                     if got[k][c] != e:
                         return False, (f"column {c} of the blurred mapping matrix is not the blurring operator applied "
                                        f"to column {c}: entry {k} is {got[k][c]}, expected {e}")
+                    if c == 0 and "interp_col0" in obs and (len(obs["interp_col0"]) != len(unm)
+                                                            or Fraction(obs["interp_col0"][k]) != e):
+                        return False, ("convolve_image_no_blurring_interpolation on column 0 is not the blurring "
+                                       f"operator applied to it (entry {k})")
             return True, ""
         if kind == "operator":
             support = sorted(set(unm) | blurpix)
@@ -1764,14 +2716,21 @@ class C03(PropertyCheck):
             exp = [self._conv_at(A, K, kh, kw, h, w, (y, x)) for y in range(h) for x in range(w)]
             sky = Fraction(0) if case.get("subtract_background", True) else Fraction(self._background(case))
             exp = [e + sky for e in exp]
-            if [Fraction(v) for v in obs["simulated"]] != exp:
+            tol = self.TOL if case.get("tol") else None
+
+            def same(got, want):
+                got = [Fraction(v) for v in got]
+                if tol is None:
+                    return got == want
+                return len(got) == len(want) and all(abs(a - b) <= tol * max(1, abs(b)) for a, b in zip(got, want))
+            if not same(obs["simulated"], exp):
                 return False, "noise-free simulated data is not the true whole-frame convolution with the simulator's PSF"
-            if [Fraction(v) for v in obs["psf"]] != [v for r in K for v in r]:
+            if not same(obs["psf"], [v for r in K for v in r]):
                 return False, ("the masked dataset's PSF is not the kernel the data were simulated with "
                                "(normalised exactly once iff normalize_psf)")
-            if [Fraction(v) for v in obs["data"]] != [exp[y * w + x] for (y, x) in unm]:
+            if not same(obs["data"], [exp[y * w + x] for (y, x) in unm]):
                 return False, "masked data are not the simulated data gathered at the mask"
-            if any(Fraction(v) != sky for v in obs["residual"]):
+            if not same(obs["residual"], [sky] * len(unm)):
                 return False, f"noise-free simulated image is not fitted with zero residual: {obs['residual'][:6]}"
             return True, ""
         return True, ""
@@ -1843,7 +2802,11 @@ class C03(PropertyCheck):
         nzk = [i for i, v in enumerate(K["vals"]) if Fraction(v) != 0]
         if len(nzk) > 1:
             for i in nzk[:12]:
-                yield {**case, "kernel": {**K, "vals": ["0" if k == i else v for k, v in enumerate(K["vals"])]}}
+                vals = ["0" if k == i else v for k, v in enumerate(K["vals"])]
+                if kind == "simulate" and case.get("normalize_psf", True) and not case.get("tol") \
+                        and not self._is_pow2(sum(Fraction(v) for v in vals)):
+                    continue    # (normalising by a non-power of two rounds: not a witness of anything)
+                yield {**case, "kernel": {**K, "vals": vals}}
 
     def theorems_for(self, case):
         if case["kind"] == "history":
